@@ -12,7 +12,11 @@ import (
 	"fmt"
 	"io"
 	"log"
+	"runtime"
+	"sync"
+	"sync/atomic"
 	"testing"
+	"time"
 )
 
 var vkPool = [][]byte{
@@ -31,7 +35,49 @@ func vkID(k []byte) int64 {
 	return 99
 }
 
-// cfg: [npre, pre..., primary]; ops: [0,k] AddKey [1,k] UseKey [2,k] RemoveKey [3] GetKeys [4] GetPrimaryKey
+// the same AddKey(key) from n goroutines that all arrive while the ring is busy (its lock is held by the
+// harness), so that they enter together when it is released: result 0 all nil, 1 some error, 2 some panic.
+// Whatever the interleaving, the ring afterwards must be what ONE AddKey(key) leaves.
+func vkAddConcurrently(ring *Keyring, key []byte, n int) int64 {
+	var started, errs, pans atomic.Int64
+	var wg sync.WaitGroup
+	ring.l.Lock()
+	for g := 0; g < n; g++ {
+		wg.Add(1)
+		go func() {
+			defer wg.Done()
+			defer func() {
+				if recover() != nil {
+					pans.Add(1)
+				}
+			}()
+			started.Add(1)
+			if ring.AddKey(key) != nil {
+				errs.Add(1)
+			}
+		}()
+	}
+	// every caller is running ...
+	for started.Load() < int64(n) {
+		runtime.Gosched()
+	}
+	// ... and has had time to get to the lock (or to return: an invalid key is refused before it)
+	for i := 0; i < 20; i++ {
+		runtime.Gosched()
+	}
+	time.Sleep(200 * time.Microsecond)
+	ring.l.Unlock()
+	wg.Wait()
+	switch {
+	case pans.Load() > 0:
+		return 2
+	case errs.Load() > 0:
+		return 1
+	}
+	return 0
+}
+
+// cfg: [npre, pre..., primary]; ops: [0,k] AddKey [0,k,n] AddKey from n goroutines at once [1,k] UseKey [2,k] RemoveKey [3] GetKeys [4] GetPrimaryKey
 func vkRun(c *vfCase, st *vfStats) {
 	npre := int(c.Cfg[0])
 	var pre [][]byte
@@ -70,6 +116,16 @@ func vkRun(c *vfCase, st *vfStats) {
 			var e error
 			switch op[0] {
 			case 0:
+				if len(op) > 2 {
+					switch vkAddConcurrently(ring, vkPool[op[1]], int(op[2])) {
+					case 1:
+						e = fmt.Errorf("AddKey failed")
+					case 2:
+						panic("AddKey panicked")
+					}
+					st.OpHist["add_concurrent"]++
+					break
+				}
 				e = ring.AddKey(vkPool[op[1]])
 				st.OpHist["add"]++
 			case 1:
@@ -144,6 +200,9 @@ func vkGen(r *vfRng) vfCase {
 			k = int64(1 + r.n(9))
 		}
 		switch p := r.n(100); {
+		case p < 4:
+			// overlapping installs of one key, then a look at the ring
+			c.Ops = append(c.Ops, []int64{0, k, int64(2 + r.n(2))}, []int64{3})
 		case p < 25:
 			c.Ops = append(c.Ops, []int64{0, k})
 		case p < 45:
@@ -295,7 +354,7 @@ func vkPerms(n int) [][]int {
 
 func TestVfKeyring(t *testing.T) {
 	st := vfNewStats("keyring")
-	st.Rule = "NewKeyring + op sequences over AddKey/UseKey/RemoveKey/GetKeys/GetPrimaryKey with keys from a pool of 4 valid (16/16/24/32 B) and 3 invalid (10, 0, 17 B) keys; every returned slice re-read after each later call; plus all 216 per-phase orderings of the 3-node rotation with real encrypt/decrypt between all ordered pairs at every step; distinct = distinct (op, result, #returned, #held slices) tuples"
+	st.Rule = "NewKeyring + op sequences over AddKey/UseKey/RemoveKey/GetKeys/GetPrimaryKey (4% of the steps: the same AddKey from 2-3 goroutines that enter together, followed by GetKeys) with keys from a pool of 4 valid (16/16/24/32 B) and 3 invalid (10, 0, 17 B) keys; every returned slice re-read after each later call; plus all 216 per-phase orderings of the 3-node rotation with real encrypt/decrypt between all ordered pairs at every step; distinct = distinct (op, result, #returned, #held slices) tuples"
 	cases, replay, err := vfLoadCases()
 	if err != nil {
 		t.Fatal(err)
